@@ -385,8 +385,25 @@ func (r *collection) Remove(t reflect.Type) {
 	r.mu.Lock()
 	defer r.mu.Unlock()
 
-	typeKey := TypeKey{Type: t}
+	r.removeDescriptor(TypeKey{Type: t})
+}
+
+// removeDescriptor drops a registration from the lookup table and from the list Build iterates over
+func (r *collection) removeDescriptor(typeKey TypeKey) {
+	descriptor, ok := r.services[typeKey]
+	if !ok {
+		return
+	}
+
 	delete(r.services, typeKey)
+
+	remaining := make([]*Descriptor, 0, len(r.allDescriptors))
+	for _, d := range r.allDescriptors {
+		if d != descriptor {
+			remaining = append(remaining, d)
+		}
+	}
+	r.allDescriptors = remaining
 }
 
 // RemoveKeyed removes a specific keyed service
@@ -398,8 +415,7 @@ func (r *collection) RemoveKeyed(t reflect.Type, key any) {
 	r.mu.Lock()
 	defer r.mu.Unlock()
 
-	typeKey := TypeKey{Type: t, Key: key}
-	delete(r.services, typeKey)
+	r.removeDescriptor(TypeKey{Type: t, Key: key})
 }
 
 // ToSlice returns a copy of all registered service descriptors
